@@ -544,6 +544,8 @@ type life struct {
 	res    []string // per op result
 	finTip int
 	bad    string
+	// snapshots handed out earlier whose contents changed afterwards (results are values)
+	snapChanged int
 }
 
 type run struct {
@@ -649,12 +651,22 @@ func runLife(root string, startDir string, w *world, c cfg, ops []string) *life 
 			notes = append(notes, note{cdb.n})
 		}
 	})
+	type snap struct {
+		p *blockchain.BestState
+		v blockchain.BestState
+	}
+	snaps := []snap{{ch.BestSnapshot(), *ch.BestSnapshot()}}
 	for _, op := range ops {
+		if p := ch.BestSnapshot(); p != nil {
+			snaps = append(snaps, snap{p, *p})
+		}
 		switch {
 		case op == "f":
 			l.res = append(l.res, errClass(ch.FlushUtxoCache(blockchain.FlushRequired)))
 		case op == "i":
 			l.res = append(l.res, errClass(ch.FlushUtxoCache(blockchain.FlushIfNeeded)))
+		case op == "p":
+			l.res = append(l.res, errClass(ch.FlushUtxoCache(blockchain.FlushPeriodic)))
 		case strings.HasPrefix(op, "d"):
 			id, _ := strconv.Atoi(op[1:])
 			start := cdb.n
@@ -687,6 +699,11 @@ func runLife(root string, startDir string, w *world, c cfg, ops []string) *life 
 	}
 	l.n = cdb.n
 	l.finTip = w.id(&ch.BestSnapshot().Hash)
+	for _, sn := range snaps {
+		if *sn.p != sn.v {
+			l.snapChanged++
+		}
+	}
 	return l
 }
 
@@ -752,7 +769,42 @@ func reopen(root, imgDir string, w *world, c cfg, acked []int, ops []string) str
 		}
 		chain = append(chain, strconv.Itoa(w.id(hh)))
 	}
-	out := fmt.Sprintf("r=ok,%d,%s,%s,%d", tip, strings.Join(chain, "."), utxo, missing)
+	// secondary read APIs must agree with the primary ones
+	var mc []string
+	ids := []int{0}
+	for _, d := range w.descs {
+		ids = append(ids, d.id)
+	}
+	sort.Ints(ids)
+	for _, id := range ids {
+		if ch.MainChainHasBlock(w.byID[id].Hash()) {
+			mc = append(mc, strconv.Itoa(id))
+		}
+	}
+	bb, sj := 0, 0
+	for h := int32(0); h <= ch.BestSnapshot().Height; h++ {
+		hh, err := ch.BlockHashByHeight(h)
+		if err != nil {
+			continue
+		}
+		blk, err := ch.BlockByHash(hh)
+		hgt, err2 := ch.BlockHeightByHash(hh)
+		if err != nil || err2 != nil || hgt != h || *blk.Hash() != *hh {
+			continue
+		}
+		bb++
+		if h == 0 {
+			continue
+		}
+		want := 0
+		for _, tx := range blk.MsgBlock().Transactions[1:] {
+			want += len(tx.TxIn)
+		}
+		if st, err := ch.FetchSpendJournal(blk); err == nil && len(st) == want {
+			sj++
+		}
+	}
+	out := fmt.Sprintf("r=ok,%d,%s,%s,%d mc=%s bb=%d sj=%d", tip, strings.Join(chain, "."), utxo, missing, joinOr(mc), bb, sj)
 	for _, op := range deliveries(ops) {
 		id, _ := strconv.Atoi(op[1:])
 		ch.ProcessBlock(btcutil.NewBlock(w.byID[id].MsgBlock()), blockchain.BFNone)
@@ -832,8 +884,70 @@ func (P) exec(line string) string {
 			copyTree(l.img(k), img)
 			tear(img)
 		}
-		return fmt.Sprintf("n=%d res=%s %s w=%s %s", l.n, strings.Join(l.res, "."), l.pers[k], l.window[k],
+		return fmt.Sprintf("n=%d res=%s sv=%d %s w=%s %s", l.n, strings.Join(l.res, "."), l.snapChanged, l.pers[k], l.window[k],
 			reopen(r.root, img, r.w, c.life(2), l.acked(k), ops))
+	case "par":
+		// ≥ 8 independent nodes (own world, own directory) run the same workload
+		// concurrently, each crashed at its own index: no hidden shared state.
+		if len(t) != 7 {
+			return "malformed"
+		}
+		c, ok := parseCfg(t[2], t[3])
+		descs, ok2 := parseBlocks(t[4])
+		if !ok || !ok2 {
+			return "malformed"
+		}
+		ops, ok := parseOps(t[5], descs)
+		if !ok {
+			return "malformed"
+		}
+		var ks []int
+		for _, x := range strings.Split(t[6], ".") {
+			k, err := strconv.Atoi(x)
+			if err != nil || k < 1 {
+				return "malformed"
+			}
+			ks = append(ks, k)
+		}
+		if len(ks) < 2 || len(ks) > 32 {
+			return "malformed"
+		}
+		purgeStale()
+		root, err := os.MkdirTemp(tmpBase(), "c04-par-")
+		if err != nil {
+			panic(err)
+		}
+		defer os.RemoveAll(root)
+		outs := make([]string, len(ks))
+		done := make(chan int, len(ks))
+		for i, k := range ks {
+			go func(i, k int) {
+				defer func() {
+					if r := recover(); r != nil {
+						outs[i] = "panic"
+					}
+					done <- i
+				}()
+				time.Sleep(time.Duration(i) * 3 * time.Millisecond)
+				w := buildWorld(descs)
+				dir := filepath.Join(root, fmt.Sprintf("n%d", i))
+				l := runLife(filepath.Join(dir, "l1"), "", w, c, ops)
+				if l.bad != "" {
+					outs[i] = l.bad
+					return
+				}
+				if k > l.n {
+					outs[i] = fmt.Sprintf("n=%d out-of-range", l.n)
+					return
+				}
+				outs[i] = fmt.Sprintf("n=%d res=%s sv=%d %s w=%s %s", l.n, strings.Join(l.res, "."), l.snapChanged, l.pers[k],
+					l.window[k], reopen(dir, l.img(k), w, c.life(2), l.acked(k), ops))
+			}(i, k)
+		}
+		for range ks {
+			<-done
+		}
+		return strings.Join(outs, " | ")
 	case "img2":
 		// crash at k, reopen, feed the deliveries again, crash at the j-th commit of that second life
 		if len(t) != 8 {
@@ -920,7 +1034,7 @@ func parseOps(s string, descs []blkDesc) ([]string, bool) {
 	}
 	for _, o := range strings.Split(s, ",") {
 		switch {
-		case o == "f" || o == "i":
+		case o == "f" || o == "i" || o == "p":
 		case strings.HasPrefix(o, "d"):
 			id, err := strconv.Atoi(o[1:])
 			if err != nil || !known[id] {
@@ -1051,11 +1165,13 @@ func (g *gw) add(parent int, kind int, maxSpends int) int {
 func (g *gw) deliver(id int) { g.ops = append(g.ops, "d"+strconv.Itoa(id)) }
 
 func (g *gw) maybeFlush() {
-	switch g.r.Intn(8) {
+	switch g.r.Intn(10) {
 	case 0:
 		g.ops = append(g.ops, "f")
 	case 1:
 		g.ops = append(g.ops, "i")
+	case 2:
+		g.ops = append(g.ops, "p")
 	}
 }
 
@@ -1335,8 +1451,30 @@ func (P) Generate(g *core.Gen) {
 		}
 		return w
 	}
+	// ≥ 8 independent nodes concurrently, each crashed at its own commit index
+	emitPar := func(cache string, w *gw, inst int) {
+		if only := os.Getenv("VERIF_C04_ONLY"); only != "" && only != "par" {
+			return
+		}
+		key := fmt.Sprintf("%s 0 %s %s", cache, w.blocksStr(), w.opsStr())
+		r, _, _, ok := getRun(strings.Fields("C04 img " + key + " 1"))
+		if !ok || r.l1.bad != "" {
+			panic("generator: workload does not run: " + key)
+		}
+		var ks []string
+		for i := 0; i < inst; i++ {
+			ks = append(ks, strconv.Itoa(1+g.R.Intn(r.l1.n)))
+		}
+		g.Case("par", true, fmt.Sprintf("C04 par %s %s", key, strings.Join(ks, ".")))
+	}
 	r := g.R
 	if !g.Thorough() {
+		emitPar([]string{"0", "1", "1>0"}[r.Intn(3)], wlReorg(r, 1, 0, 2, false, -1), 8)
+		{
+			f := []int{770, 771, 772}[r.Intn(3)]
+			t := []int{1699, 1700, 1701}[r.Intn(3)]
+			emit("prune-fit", r.Intn(2), fmt.Sprintf("%d:%d", t, f), wlPruneEdge(r, 0, 13), 4, 0, 0)
+		}
 		emitSwitch("cache-switch", []string{"1>0", "1>0>1"}[r.Intn(2)], plain(5), 2)
 		emit("linear", r.Intn(2), "0", wlLinear(r, 3), 1, 1, 3)
 		emit("reorg", r.Intn(2), "0", wlReorg(r, 2, 0, 3, false, -1), 1, 1, 3)
@@ -1373,6 +1511,16 @@ func (P) Generate(g *core.Gen) {
 			prune := []string{"2000:1000", "3000:1000", "1600:800", "2400:1200"}[r.Intn(4)]
 			emit("prune", i%2, prune, wlLong(r, 14+r.Intn(12), i%3 == 0), 3, 4, 6)
 		}
+		for i := 0; i < 6; i++ {
+			emitPar([]string{"0", "1", "1>0"}[i%3], []*gw{wlLinear(r, 3), wlReorg(r, 2, 0, 3, false, -1), wlInvalid(r)}[i%3], 8+4*(i%2))
+		}
+		// exact-fit boundaries of the block files (a record that ends exactly at the
+		// roll-over limit, one byte below, one above) and of the prune target
+		for _, f := range []int{770, 771, 772} {
+			for _, t := range []int{1699, 1700, 1701} {
+				emit("prune-fit", (f+t)%2, fmt.Sprintf("%d:%d", t, f), wlPruneEdge(r, 0, 13), 2, 1, 2)
+			}
+		}
 		for _, cs := range []string{"1>0", "1>0>1", "1>0>0", "1>1>0", "0>1>0", "1>0"} {
 			emitSwitch("cache-switch", cs, plain(4+r.Intn(4)), 3)
 		}
@@ -1392,7 +1540,7 @@ func (P) Generate(g *core.Gen) {
 		"C04 img 2 0 1:0:- d1 1", "C04 img 0 0 1:1:- d1 1", "C04 img 0 0 1:0:- d2 1", "C04 img 0 0 1:0:- d1 0",
 		"C04 img 0 0 1:0:-:y d1 1", "C04 img 0 0 1:0:-,1:0:- d1 1", "C04 img 0 0 - - 1", "C04 img 0 0 - - 3", "C04 img 0 0 - - 4",
 		"C04 img 0 0 1:0:- d1", "C04 nop", "C04 img 0 500:1000 1:0:- d1 1", "C04 img 0 1000:0 1:0:- d1 1",
-		"C04 img2 0 0 1:0:- d1 4 0", "C04 img 1>2 0 1:0:- d1 4", "C04 img 1>0>1>0 0 1:0:- d1 4", "C04 img > 0 1:0:- d1 4", "C04 img 1>0 0 1:0:- d1 4", "C04 img2 0 0 1:0:- d1 4 1", "C04 img2 0 0 1:0:- d1 4 99", "C04 torn 0 0 1:0:- d1 5",
+		"C04 img2 0 0 1:0:- d1 4 0", "C04 par 0 0 1:0:- d1 4", "C04 par 0 0 1:0:- d1 4.0", "C04 par 0 0 1:0:- d1 4.x", "C04 img 1>2 0 1:0:- d1 4", "C04 img 1>0>1>0 0 1:0:- d1 4", "C04 img > 0 1:0:- d1 4", "C04 img 1>0 0 1:0:- d1 4", "C04 img2 0 0 1:0:- d1 4 1", "C04 img2 0 0 1:0:- d1 4 99", "C04 torn 0 0 1:0:- d1 5",
 	} {
 		g.Case("malformed", false, l)
 	}
@@ -1453,7 +1601,26 @@ func fields(s string) map[string]string {
 // after re-delivery is exactly the one the model of the code predicts (second
 // and third component of the Lean `fin`), and that state has no more work than the
 // final state of the uninterrupted run (first component).
-func (P) ClassifyMismatch(line, goOut, leanOut string) string {
+func (p P) ClassifyMismatch(line, goOut, leanOut string) string {
+	if t := strings.Fields(line); len(t) == 7 && t[1] == "par" {
+		// every differing instance must be explained by the same known finding
+		gs, ls, ks := strings.Split(goOut, " | "), strings.Split(leanOut, " | "), strings.Split(t[6], ".")
+		if len(gs) != len(ls) || len(gs) != len(ks) {
+			return ""
+		}
+		id := ""
+		for i := range gs {
+			if gs[i] == ls[i] {
+				continue
+			}
+			sub := p.ClassifyMismatch(fmt.Sprintf("C04 img %s %s %s %s %s", t[2], t[3], t[4], t[5], ks[i]), gs[i], ls[i])
+			if sub == "" || (id != "" && sub != id) {
+				return ""
+			}
+			id = sub
+		}
+		return id
+	}
 	gf, lf := fields(goOut), fields(leanOut)
 	if id := classifyPrunedTip(line, gf, lf); id != "" {
 		return id
